@@ -22,10 +22,12 @@ class C13(WrapHarness):
                             if q and ((feat == 'nd' and (split == 'N' or not bw)) or (algo == 'O' and split == 'N')):
                                 continue
                             c = {'feat': feat, 'algo': algo, 'sep': sep, 'split': split, 'bw': bw, 'n': 3 if q else 4,
-                                 'ntok': (1 if algo == 'O' else 2) if q else 3, 'wmax': 1 << 20}
+                                 'ntok': (1 if algo == 'O' else 2) if q else 2, 'wmax': 1 << 20}
                             if sep == 'U':
                                 c['alpha'] = [' ', 'a', '-', '你'] if q else [' ', 'a', '-', '你', '\n', '́', ')']
                             out.append(c)
+        if not q:      # three sequences on three visible characters
+            out.append({'feat': 'full', 'algo': 'F', 'sep': 'A', 'split': 'H', 'bw': True, 'n': 3, 'ntok': 3, 'wmax': 1 << 20})
         # sentence templates with one (thorough: also two) inserted sequence(s) at every position
         tb = {'feat': 'full', 'algo': 'F', 'sep': 'A', 'split': 'H', 'bw': True, 'n': 0, 'ntok': 1, 'wmax': 1 << 20}
         out += tmpl_spaces(tb, ['short'] if q else ['short', 'sentence', 'longword', 'hyphens'])
@@ -41,7 +43,7 @@ class C13(WrapHarness):
                 'Unicode separator) with <= %d well-formed sequences (SGR ESC[1m, truecolor ESC[38;2;255;128;0m, hyperlink '
                 'ESC]8;;x ESC\\, title ESC]0;c:\\a BEL) inserted so '
                 'that each touches a non-space character (and no hyphen when the hyphen splitter is active); all widths, '
-                'both algorithms, both separators, break_words on/off' % (3 if q else 4, 2 if q else 3))
+                'both algorithms, both separators, break_words on/off' % (3 if q else 4, 2))
 
     def gen_coloured(self, I, cfg):
         hy = cfg['split'] == 'H'
